@@ -1,5 +1,5 @@
 """C16 — observation is read-only and bound to its coordinate."""
-import os, json, re
+import os, json, re, time
 import vf
 
 PROP = "C16"
@@ -14,7 +14,7 @@ Import ListNotations.
 Open Scope N_scope.
 (* instance used for execution: state = its own root, patch = the next root; replay is not executed here *)
 Definition E (g r c : N) (o : list (N * bytes)) : entry N := Build_entry N r g r c o.
-Definition WL (gr gc : N) (h : list (entry N)) (s : option (N * live)) : wline N N := Build_wline N N gr gr gc h s.
+Definition WL (gr gc : N) (h : list (entry N)) (s : option (N * live)) (cps : list N) : wline N N := Build_wline N N gr gr gc h s cps.
 Definition optN (o : option N) : list N := match o with Some n => [n] | None => [] end.
 Definition rs_out (r : resolved) : list (list N) :=
   [[rs_tick r]; optN (rs_cgt r); optN (rs_oagt r); [rs_root r]; [rs_commit r]].
@@ -259,7 +259,7 @@ def world_term(facts):
     chans = [int(c, 16) for c in m["ch"].split(",")]
     lines = []
     for v in wls:
-        idx, groot, gcommit, strand, ents = v.split(":")
+        idx, groot, gcommit, strand, ents, cps = v.split(":")
         es = []
         if ents != "-":
             for e in ents.split("/"):
@@ -285,7 +285,8 @@ def world_term(facts):
             else:
                 lv = f"(LReval {parse_pref(f[2])} {parse_pref(f[3])} {f[4]} {H(int(f[5], 16))})"
             st = f"(Some ({sid}, {lv}))"
-        lines.append(f"({H(wl_id(int(idx)))}, WL {H(int(groot, 16))} {H(int(gcommit, 16))} [{';'.join(es)}] {st})")
+        cpl = "" if cps == "-" else cps.replace(",", ";")
+        lines.append(f"({H(wl_id(int(idx)))}, WL {H(int(groot, 16))} {H(int(gcommit, 16))} [{';'.join(es)}] {st} [{cpl}])")
     qs = []
     if m["q"] != "-":
         for q in m["q"].split(","):
@@ -485,6 +486,68 @@ def run_model(tag, cases, impl):
     return out
 
 
+def history_lengths(facts):
+    out = {}
+    for tok in facts.split():
+        if tok.startswith("wl="):
+            idx, _g, _c, _s, ents, _cps = tok[3:].split(":")
+            out[int(idx)] = 0 if ents == "-" else len(ents.split("/"))
+    return out
+
+
+def coord_class(q, lens):
+    """where the requested coordinate lies relative to the recorded history at this round"""
+    f = q.split(":")
+    if f[0] == "o":
+        w, a = int(f[1]), f[2]
+    else:
+        if f[2] == "x":
+            return "optic:non-worldline"
+        parts = f[2].split(".")
+        w = int(parts[0][1:])
+        a = "f" if parts[1] == "f" else ("t" + (parts[1][1:] if parts[1][0] == "t" else parts[2]))
+    if w not in lens:
+        return "unknown-worldline"
+    if a == "f":
+        return "frontier-empty" if lens[w] == 0 else "frontier"
+    t = int(a[1:])
+    if t >= lens[w]:
+        return "tick-future" if t > lens[w] else "tick-first-unavailable"
+    return "tick-last" if t == lens[w] - 1 else "tick-historical"
+
+
+def shape_class(q):
+    f = q.split(":")
+    if f[0] == "o":
+        extra = ("" if f[5] in ("bh", "bs", "bt", "bq") else "+authored") + ("" if f[6] == "-" else "+instance") + \
+                ("" if f[7] == "u" else "+bounded") + ("" if f[8] == "k" else "+scoped")
+        return f"observe:{f[3]}/{f[4][0]}{extra}"
+    return f"optic:{f[1][0]}/{f[3][0]}"
+
+
+def shrink_oracle(case, oracle, bins):
+    """delta-debug steps and requests of a case whose implementation oracle fails (same first signature)"""
+    m = parse_case(case)
+    sig = oracle[5:].split(",")[0]
+    def fails(steps, reqs):
+        if not steps or not reqs or "R" not in steps:
+            return False
+        c = f"id={m['id']} wls={m['wls']} q={m['q']} steps={'|'.join(steps)} reqs={';'.join(reqs)}"
+        try:
+            res = run_impl("c16shrink", [c], bins)
+        except vf.Broken:
+            return False
+        return sig in res[0]["oracle"]
+    steps, reqs = m["steps"].split("|"), m["reqs"].split(";")
+    try:
+        single = next((q for q in reqs[:120] if fails(steps, [q])), None)
+        reqs = [single] if single else vf.shrink_list(reqs, lambda x: fails(steps, x), max_rounds=80)
+        steps = vf.shrink_list(steps, lambda x: fails(x, reqs), max_rounds=40)
+    except Exception:
+        pass
+    return f"id={m['id']} wls={m['wls']} q={m['q']} steps={'|'.join(steps)} reqs={';'.join(reqs)}"
+
+
 def classify(line):
     return line.split(" ", 1)[0] + (":" + line.split(" ")[1].split(":")[0] if line[0] in "EO" and line[1] in " E" else "")
 
@@ -507,6 +570,15 @@ def run(tier, seed, replay=None):
                              "harness c16.rs (abstraction: provenance entries -> model world; artifact -> canonical line)",
                              "blake3 crate (artifact preimage hashed by vfhash)"]
     r.proof_phase(THEOREMS)
+    if tier == "thorough":
+        try:
+            t1 = time.time()
+            rc, out = vf.sh(["coqchk", "-o", "-silent", "-Q", vf.COQ, "Echo", "Echo.Props.C16"], timeout=1500)
+            r.phase("P1b_coqchk", ok=(rc == 0), seconds=round(time.time() - t1, 1), tail=out[-300:])
+            if rc:
+                r.is_broken("coqchk", out[-1500:])
+        except Exception as e:
+            r.is_broken("coqchk", repr(e))
     if replay:
         d = json.load(open(replay))
         cases = [d["replay"]["case"]] if "case" in d.get("replay", {}) else []
@@ -531,13 +603,25 @@ def run(tier, seed, replay=None):
     except (vf.Broken, ValueError, KeyError, IndexError) as e:
         r.is_broken("correspondence-run", repr(e))
         return r.finish()
-    differing, total_lines, kinds = 0, 0, {}
+    differing, total_lines, kinds, coords, shapes = 0, 0, {}, {}, {}
+    shrunk = 0
     for ci, (c, im, mo) in enumerate(zip(cases, impl, model)):
         reqs = [q for q in parse_case(c).get("reqs", "").split(";") if q]
         if im["oracle"] != "ok":
+            small = c
+            if shrunk < 3 and not replay:
+                shrunk += 1
+                small = shrink_oracle(c, im["oracle"], bins)
             for sig in im["oracle"][5:].split(","):
                 r.violation("oracle:" + sig.split("[")[0], f"implementation oracle failed: {sig}",
-                            {"case": c, "oracle": im["oracle"]})
+                            {"case": small, "oracle": im["oracle"], "original_case": c})
+        for rd in im["rounds"]:
+            lens = history_lengths(rd["facts"])
+            for q in reqs:
+                k = coord_class(q, lens)
+                coords[k] = coords.get(k, 0) + 1
+                sh = shape_class(q)
+                shapes[sh] = shapes.get(sh, 0) + 1
         reported = False
         for ri, rd in enumerate(im["rounds"]):
             for qi, (a, b) in enumerate(zip(rd["lines"], mo[ri])):
@@ -564,6 +648,8 @@ def run(tier, seed, replay=None):
     r.cov["result_kind_histogram"] = dict(sorted(kinds.items()))
     r.cov["reads_on_impl_with_fingerprints"] = reads
     r.cov["read_rounds"] = sum(len(im["rounds"]) for im in impl)
+    r.cov["coordinate_class_histogram"] = dict(sorted(coords.items()))
+    r.cov["request_shape_histogram"] = dict(sorted(shapes.items()))
     r.cov["cases"] = len(cases)
     r.cov["step_histogram"] = {}
     for c in cases:
